@@ -300,6 +300,20 @@ def short(path):
     return path.split('::')[-1] if path else path
 
 
+def _offset_ids(e, off):
+    if isinstance(e, dict):
+        for k in ('id', 'hid', 'target'):
+            v = e.get(k)
+            if isinstance(v, int) and v < 1000000:
+                e[k] = v + off
+        for v in e.values():
+            if isinstance(v, (dict, list)):
+                _offset_ids(v, off)
+    elif isinstance(e, list):
+        for x in e:
+            _offset_ids(x, off)
+
+
 _REF_FNS = None
 
 
@@ -350,6 +364,19 @@ class Crate:
         for f in self.fns.values():
             if f.parent:
                 self.children.setdefault(f.parent, []).append(f)
+        # binding / block ids are only unique per owner function: make them unique per crate, so that the body of a helper can be
+        # looked at from its caller without two bindings sharing an id
+        owners = {}
+        for f in self.fns.values():
+            o = f
+            while o.parent and o.parent in self.fns:
+                o = self.fns[o.parent]
+            owners.setdefault(o.path, []).append(f)
+        for i, (opath, members) in enumerate(sorted(owners.items())):
+            off = (i + 1) * 1000000
+            for f in members:
+                _offset_ids(f.hir, off)
+                _offset_ids(f.params, off)
 
     def fn(self, path):
         """exact def path, or unique suffix match"""
